@@ -1865,6 +1865,30 @@ func genC04(ctx *hx.Ctx, emit func(hx.Case)) {
 					"examples": map[string]any{"e1": map[string]any{"value": v}, "e0": map[string]any{"value": map[string]any{"id": "x", "pw": "y"}}}})
 			}},
 		}
+		firstItem := func(d map[string]any) map[string]any {
+			paths := asMap(d["paths"])
+			keys := make([]string, 0, len(paths))
+			for k := range paths {
+				keys = append(keys, k)
+			}
+			sort.Strings(keys)
+			if len(keys) == 0 {
+				return nil
+			}
+			return asMap(paths[keys[len(keys)-1]])
+		}
+		reqSites = append(reqSites,
+			site{"pathitem.parameter.example", func(d, v map[string]any) {
+				if it := firstItem(d); it != nil {
+					addParam(it, map[string]any{"name": "cred", "in": "header", "schema": secret(), "example": v})
+				}
+			}},
+			site{"operation.parameter.ref-component", func(d, v map[string]any) {
+				asMap(asMap(d["components"])["parameters"])["Cred"] = map[string]any{"name": "cred", "in": "query", "schema": secret(),
+					"examples": map[string]any{"e1": map[string]any{"value": v}}}
+				addParam(firstOp(d), map[string]any{"$ref": "#/components/parameters/Cred"})
+			}},
+		)
 		resSites := []site{
 			{"components.header.example", func(d, v map[string]any) {
 				asMap(asMap(d["components"])["headers"])["Back"] = map[string]any{"schema": readback(), "example": v}
